@@ -1,7 +1,7 @@
 (** C12 — the property-level theorems about [Parse] and [ParseAndBuildAST]. *)
 From Coq Require Import List Arith Bool Lia.
 From Algo.C10 Require Import Model Spec Sat ProofsFirst ProofsFollow ProofsTable Proofs.
-From Algo.C12 Require Import Model Spec ProofsSound ProofsComplete.
+From Algo.C12 Require Import Model Spec ProofsSound ProofsComplete ProofsTerm.
 Import ListNotations.
 
 (** the table of a valid grammar without conflict error is deterministic, and it is [table_build] *)
@@ -110,6 +110,17 @@ Section Parse.
     split.
     - intros [f [ps H]]. now apply (parse_sound f w ps).
     - intros HS. destruct (parse_complete w HS) as [f0 H]. exists f0. now apply H.
+  Qed.
+
+  (** the loop terminates on every token list *)
+  Theorem parse_terminates w : exists f0, forall f, f0 <= f -> Parse G f w <> PHang.
+  Proof.
+    destruct (conflict_free_table G M HV HB) as [fi [fo [Ef [Eo [EM HD]]]]]. subst M.
+    destruct (loop_terminates G fi fo Ef Eo HD (fun (s : list prod) (_ : token) => s) (fun s p => p :: s)
+                (length w) w eq_refl [Nt (start G)] []) as [k Hk].
+    exists k. intros f Hf. unfold Parse, Parse_bt, parse_with. rewrite HB.
+    replace f with (k + (f - k)) by lia. specialize (Hk (f - k)).
+    destruct (parse_loop _ _ _ (k + (f - k)) [Nt (start G)] w []); congruence.
   Qed.
 
   (** the run on a sentence terminates, and every long enough run gives the same answer *)
